@@ -341,7 +341,10 @@ def remove_stale_scratch(max_age_s=7200):
     except OSError:
         return
     for n in names:
-        if n.startswith("zcsim-"):
+        # only the per-run scratch directories of the property modules (not
+        # the copies of /repo that the self-tests and seed tools make)
+        if n.startswith(("zcsim-c06-", "zcsim-c07-", "zcsim-c18-",
+                         "zcsim-c20-")):
             p = os.path.join(tmp, n)
             try:
                 if now - os.stat(p).st_mtime > max_age_s:
